@@ -15,9 +15,7 @@ RULE = ("bounded-exhaustive enumeration (E1) through AirConditioner.apply() on t
         "6 modes x {C,F}; all 128 fan bytes; all 128 humidity values; all combinations of flags sharing a byte; every value of "
         "every field against 4 base vectors; a strength-2 covering design over all fields. The 0x40 body received by the "
         "reference device is decoded with the vendor layout (reference/*.lua) and must equal the requested vector; a body->state "
-        "map over the run must be a function (injectivity). Every fourth vector also runs in 7 contexts (pending property, plain-int enums, "
-        "capabilities known, deprecated names, and - an interleaving of two tasks on one object - settings made and applied while a refresh() of the "
-        "same object is waiting for a late or lost answer). non-trivial = every case (distinct requested vectors)")
+        "map over the run must be a function (injectivity). non-trivial = every case (distinct requested vectors)")
 ASSUMPTIONS = ["vendor layout as transcribed in mc/refdevice.py; DESIGN 3 lists the ambiguities and the decisions",
                "follow-me (byte 8 bit 7) is not in the vendor file; the documented bit is used"]
 
@@ -84,9 +82,7 @@ def decoded_tuple(c):
 
 VARIANTS = ["", "pending property + state report with every answer", "enums as plain ints",
             "client queried the capabilities of a unit without optional features", "client queried the capabilities of a full-featured unit",
-            "flags set through the deprecated *_mode attribute names",
-            "settings made and applied while a refresh() of the same object waits for its answer (0.5 s)",
-            "settings made and applied while a refresh() of the same object waits for its answer (lost, retransmitted)"]
+            "flags set through the deprecated *_mode attribute names"]
 NAMES = ("power", "beep", "mode", "temp", "fan", "swing", "turbo", "follow_me", "eco", "purifier", "aux_heat(PTC bit)",
          "independent_aux(bit)", "sleep", "fahrenheit", "humidity", "freeze")
 
@@ -96,16 +92,7 @@ def execute(s, variant=0):
     variant 2: enumerated settings are given as plain integers equal to the members."""
     from msmart.device import AirConditioner as AC
 
-    inflight = {"armed": variant in (6, 7)}
-
     def script(req):
-        if inflight["armed"] and req.frame is not None and len(req.frame) > 10 and req.frame[10] == 0x41:
-            # the state query of the refresh() that is under way: answered late (6) / first transmission lost (7)
-            inflight["armed"] = False
-            if variant == 6:
-                for p in req.responses:
-                    req.send(p, 0.5)
-            return
         if variant == 1 and req.frame is not None and len(req.frame) > 10 and req.frame[10] in (0xB0, 0xB1):
             # the unit answers a property command with the acknowledgement AND a (truthful) state report, back to back
             req.conn.deliver_many(list(req.responses) + [req.dev.wrap(req.conn, req.dev.ac.report(0x05, 0x66))], 0.01)
@@ -133,22 +120,7 @@ def execute(s, variant=0):
         ac.operational_mode, ac.swing_mode, ac.aux_mode = int(s["mode"]), int(s["swing"]), int(s["aux"])
         ac.fan_speed = int(s["fan"])
     try:
-        if variant in (6, 7):
-            import asyncio
-
-            async def both():
-                # interleaving: refresh() request out -> user changes the settings -> apply() -> (late) answer to the refresh
-                dz.apply_to_client(ac, {**s, "temp": 17.0, "fan": 40, "eco": False, "power": False})
-                t = asyncio.ensure_future(ac.refresh())
-                await asyncio.sleep(0.1)
-                dz.apply_to_client(ac, s)
-                try:
-                    await ac.apply()
-                finally:
-                    await asyncio.wait([t])
-            out = rig.run(both())
-        else:
-            out = rig.run(ac.apply())
+        out = rig.run(ac.apply())
         ctl = rig.dev.ac.controls[-1] if rig.dev.ac.controls else None
         body = next((f.body[:-1] for f in reversed(rig.dev.ac.frames) if f.body[0] == 0x40), None)
         rej = rig.dev.ac.rejected[-1][1] if rig.dev.ac.rejected else None
@@ -191,7 +163,7 @@ def run_shard(shard, tier) -> Stats:
     det = Determinism(first=3, every=499)
     table = {}
     for ci, s in enumerate(cases):
-        for variant in ((0, 1, 2, 3, 4, 5, 6, 7) if ci % 4 == 0 else (0,)):
+        for variant in ((0, 1, 2, 3, 4, 5) if ci % 4 == 0 else (0,)):
             res = execute(s, variant)
             if det.due():
                 r2 = execute(s, variant)
